@@ -42,6 +42,32 @@ def refCount (s : State) (o : Id) : Nat :=
 def admits (cfg : Cfg) (s : State) (ctx : Option Id) (n : Nat) : Bool :=
   (hdrAlloc cfg s (cxOf s ctx) ctx n false .plain false).2
 
+/-- the `.memlimit` chunks that `apply_memlimit(t, ..)` visits, nearest first -/
+def limitsAbove (cfg : Cfg) : Nat → State → Option Id → List Id
+  | 0, _, _ => []
+  | f + 1, s, t =>
+    match t with
+    | none => []
+    | some t =>
+      match s.get t with
+      | none => []
+      | some o =>
+        if !o.useLim then []
+        else if !o.hasLim then limitsAbove cfg f s o.parent
+        else
+          match findLim s o.children with
+          | none => if cfg.fixGone then limitsAbove cfg f s o.parent else []
+          | some l =>
+            match s.get l with
+            | none => []
+            | some _ => l :: limitsAbove cfg f s o.parent
+
+/-- a charge of `d` more bytes stays within the limit recorded in chunk `l` -/
+def fits (s : State) (d : Int) (l : Id) : Bool :=
+  match s.get l with
+  | some lb => decide ((lb.lcur : Int) + d ≤ (lb.lmax : Int))
+  | none => true
+
 /-- bisection for the largest admissible `n ≤ hi` given `admits lo` -/
 def bisect (cfg : Cfg) (s : State) (ctx : Option Id) : Nat → Nat → Nat → Nat
   | 0, lo, _ => lo
@@ -56,6 +82,16 @@ def PROBE_HI : Nat := 1 <<< 17
 /-- largest admissible request under `ctx` (`none` = not even 0 bytes) capped at `PROBE_HI` -/
 def maxAdmissible (cfg : Cfg) (s : State) (ctx : Option Id) : Option Nat :=
   if admits cfg s ctx 0 then some (bisect cfg s ctx 24 0 PROBE_HI) else none
+
+/-! ## what "an operation that reports failure changes nothing" compares -/
+
+/-- an object with its destructor script (which counts refusals) and its memlimit counter (C19
+treats it exactly) blanked -/
+def absObj (o : Obj) : Obj := { o with dtor := .none, lcur := 0 }
+
+/-- the heap up to destructor scripts / memlimit counters, and the null context; the log and the
+ghost flags are not part of it -/
+def absState (s : State) : List (Option Obj) × Option Id := (s.heap.map (Option.map absObj), s.nullCtx)
 
 /-! ## structural invariant (C01) -/
 
